@@ -7,9 +7,15 @@ NOT_BUILT = "engine not built yet in this round; will be claimed when its check 
 
 # id -> (engine, technique, design_ref, level text, level note)
 CLAIMED = {
+ "C16": ("tables", "cross-function agreement of layout constants (verbs, loop steps, bounds) + finite-quotient evaluation of the closed-form size functions over n mod L", "DESIGN.md 4/C16",
+         "Static decision that the ORIGIN layout parameters (index width, group size, residues per line, bytes per line) agree across the six functions that embody them (LAYOUT) and that toOriginLength / fromOriginLength equal the layout's byte count and its inverse for every residue class of the length (LAYOUT-ARITH; exact because each function uses its parameter only through / and % by the layout modulus). Does not decide the decoded residues or fast/slow path equivalence.",
+         "The finite-quotient argument is checked syntactically (QuotientUses); the evaluator covers only straight-line integer arithmetic."),
  "C18": ("tables", "constant-table extraction + exhaustive oracle comparison; role-based AST dataflow (go/ast + go/types)", "DESIGN.md 4/C18",
          "Exhaustive static decision of the finite tables (256 byte values for complement/transcribe, all 16 IUPAC query letters for Match) against an IUPAC oracle in the checker, plus structural rules LOOKUP/WIRE/LITERAL/FOLD on the resolved program. Decides the table and wiring clauses of the property, not regexp or suffix-array semantics.",
          "Trusts bytes.IndexByte/ToLower, regexp, index/suffixarray, sort as documented; the translation helper is checked by roles (LOOKUP)."),
+ "C01": ("tables", "writer/reader agreement of constant tables extracted from the type-checked source (labels via AST reachability from GenBankParser, column widths, calendar tables) + finite-quotient evaluation of isLeapYear over year mod 400", "DESIGN.md 4/C01",
+         "Static decision of three necessary writer/reader agreement clauses: every field label the writer can emit is one a reader sub-parser is keyed on (LABELS, 20 labels), all column prefixes / %-Ns widths / the continuation indent are the one depth the reader derives from the LOCUS line (WIDTH), and the month and day tables plus the leap-year rule are the Gregorian calendar (CALENDAR, exhaustive). Does not decide equality of field values after a round trip.",
+         "Labels are recognised as runs of >= 5 capitals at the head of a writer string constant; time.Format and fmt padding are trusted."),
  "C02": ("conserve", "structural conservation rules on the syntax tree with resolved objects: per-iteration sink counting (FMAP), definite assignment of freshly made slices (FILL)", "DESIGN.md 4/C02",
          "Static decision of two necessary conditions of Insert/Embed: every host and guest feature reaches the result exactly once with its key and qualifiers and a location computed from its own (FMAP, 4 loops), and every part of a multi-part location is transformed by Shift/Expand (FILL, 4 sites). Does not decide the placement arithmetic.",
          "Trusts that WithFeatures installs the table it is given; idioms outside the enumerated ones inside the anchors are reported undecided."),
